@@ -26,4 +26,5 @@ def main(tier, replay=None):
                        "crash model of conf-qmail: directory operations synchronous, file data since last fsync may be lost per file, single writes not torn"]
     res.require_nonzero("evaluations", "machine_crashes", "process_kills", "faults_injected", "states_committed", "states_S3_leftover", "exits_success", "exits_failure")
     res.notes.append("virtual kernel vs Linux: %d operation sequences compared before this run, all agree (bin/conformance)" % nconf)
+    lib_conformance(res, rd, src, ['io', 'num'], tier, asan=False)
     return res.finish()
